@@ -85,12 +85,25 @@ func init() {
 			}
 		}
 		tags := []rscp.Tag{rscp.RSCP_AUTHENTICATION, rscp.RSCP_USER_LEVEL, rscp.RSCP_GENERAL_ERROR, rscp.RSCP_REQ_AUTHENTICATION, 0x00800099, 0xFFFFFFFF}
+		// every tag that differs from RSCP_AUTHENTICATION in one bit (with a granting value only): no look-alike is accepted
+		nearTags := map[rscp.Tag]bool{}
+		for b := 0; b < 32; b++ {
+			t := rscp.RSCP_AUTHENTICATION ^ rscp.Tag(1)<<uint(b)
+			nearTags[t] = true
+			tags = append(tags, t)
+		}
 		grant := []rscp.Message{{Tag: rscp.RSCP_AUTHENTICATION, DataType: rscp.UChar8, Value: uint8(10)}}
 		for _, tag := range tags {
 			for _, dt := range definedTypes {
-				for _, v := range authValues(dt) {
+				if nearTags[tag] && dt != rscp.UChar8 && dt != rscp.Int32 {
+					continue
+				}
+				for vi, v := range authValues(dt) {
+					if nearTags[tag] && vi != 2 {
+						continue
+					}
 					for extra := 0; extra < 3; extra++ {
-						if extra > 0 && !(tag == rscp.RSCP_AUTHENTICATION || dt == rscp.UChar8) {
+						if extra > 0 && (nearTags[tag] || !(tag == rscp.RSCP_AUTHENTICATION || dt == rscp.UChar8)) {
 							continue
 						}
 						reply := []rscp.Message{{Tag: tag, DataType: dt, Value: v}}
@@ -99,6 +112,9 @@ func init() {
 							reply = append(reply, []rscp.Message{grant[0], {Tag: rscp.RSCP_AUTHENTICATION, DataType: rscp.UChar8, Value: uint8(0)}}[(k+extra)%2])
 						}
 						for next := 0; next < 3; next++ {
+							if nearTags[tag] && next > 0 {
+								continue
+							}
 							s, err := newSession("authuser", "authpw", "authkey", 120*time.Millisecond, 1)
 							if err != nil {
 								continue
